@@ -1,17 +1,17 @@
-SPECIFICATION SpecNums
+SPECIFICATION SpecLists
 CONSTANTS
   Bug = ""
-  N0 = 0
-  N1 = 0
+  N0 = 1
+  N1 = 1
   N2 = 0
-  L1 = 0
+  L1 = 1
   L2 = 0
   MaxArgs = 0
   Fns = {}
   Rich = FALSE
   TextLen = 0
   Chars = {}
-  IntParts = {0, 16383}
+  IntParts = {}
   Sample = 1
-INVARIANTS InvScanPrint InvUnitsAsInTeX
+INVARIANTS InvRoundTripDevRatioSign
 CHECK_DEADLOCK FALSE
